@@ -626,6 +626,9 @@ def gen_format(rng, n):
     for i in range(n):
         loader, fmt, sep = combos[i % len(combos)]
         ay, ax = rng.choice([1, 1, 2, 3, 5]), rng.choice([1, 1, 2, 3, 4])
+        if (i // len(combos)) % 3 == 2:
+            # wide and long tables / images: rows far longer than any sampling window, many rows
+            ay, ax = rng.choice([12, 20, 41]), rng.choice([5, 8, 13, 24])
         kind = rng.choice(["int", "float", "bits", "special"])
         dtype = "float64"
         if fmt in ("npy", "fits") and loader == "image" and kind == "int":
@@ -647,7 +650,7 @@ def gen_format(rng, n):
                 row.append(bits(v))
             arr.append(row)
         cases.append({"stream": "format", "id": i, "loader": loader, "fmt": fmt, "sep": sep, "ay": ay, "ax": ax, "dtype": dtype,
-                      "arr": arr, "numfmt": rng.choice(["%.18e", "%.17g", "%s"])})
+                      "arr": arr, "numfmt": rng.choice(["%.18e", "%.18e", "%.17g", "%s"])})
     return cases
 
 
@@ -766,6 +769,7 @@ def body(ck: common.Check):
                 ck.case(case, nontrivial=case["ay"] * case["ax"] > 1, stream=s)
                 ck.count(f"format:{case['loader']}:{case['fmt']}" + (f"/{case['sep']}" if case["sep"] else ""))
                 ck.count(f"format:outcome={'ok' if 'ok' in impl else 'error'}")
+                ck.count("format:size=" + ("wide-and-long" if case["ax"] >= 5 and case["ay"] >= 12 else "small"))
                 if case["loader"] == "image" and case["fmt"] in ("txt", "data"):
                     m = ans["model"]
                     model = None if m is None else {"shape": [len(m), len(m[0]) if m else 0],
@@ -783,7 +787,7 @@ def body(ck: common.Check):
                "far offsets, 4 dtypes, allow_smaller on/off; the same through load_image / load_charge / conversion_with_qe_map in a real "
                "exposure and load_cropped_and_aligned_image, from npy / FITS / text×5 separators; histories of writes (in place / atomic "
                "replace, same and different sizes), removals and loads in one process; format round trips of load_image and load_table "
-               "(npy, FITS image / FITS table, txt/data/csv × 5 separators; ints, random doubles, arbitrary bit patterns, NaN/inf/±0/"
+               "(npy, FITS image / FITS table, txt/data/csv × 5 separators; one third of the files 12-41 rows × 5-24 columns; ints, random doubles, arbitrary bit patterns, NaN/inf/±0/"
                "subnormal). non-trivial = more than one pixel; distinct by canonical JSON" % ((3, 3) if quick else (4, 4)))
     ck.assumptions = [
         "6b: an error is required iff the row ranges or the column ranges are disjoint; allow_smaller_array=False is outside the statement",
